@@ -1,5 +1,5 @@
 """C09 — tokens are always given back."""
-FUNCS = ["CounterToken.on_deleted", "Scheduler.aio_start", "ProcessCounterToken.release", "CounterToken.release", "TokenFile.delete", "CounterTokenLock._release",
+FUNCS = ["Token.aio_notify", "CounterToken.on_deleted", "Scheduler.aio_start", "ProcessCounterToken.release", "CounterToken.release", "TokenFile.delete", "CounterTokenLock._release",
          "Lock.release", "Lock.__exit__", "Locks._release", "TokenFile.watch.run"]
 LEVEL = "proof"
 LEVEL_TEXT = 'Deductive: release removes exactly the holding and restores the sum; Lock.release/__exit__ call _release once; Locks._release releases every appended lock; aio_start appends every acquired lock to the group (invariant: group size = number of dependencies locked so far) and executes Locks.__exit__ once after the last acquisition on every outcome; the watcher of a foreign holding deletes the token file on every path (no pid file, stale pid file, live process waited for).'
